@@ -1178,7 +1178,8 @@ PROPS = {
             "C18_registry_answers": [],
             "C18_std_names_rejected": [],
             "C18_std_natives_kept": [],
-            "C18_std_native_shadowed_by_collision": [],
+            "C18_colliding_name_rejected": [],
+            "C18_registry_name_stable": [],
             "C18_registration_replaces": [],
             "C18_menu_registry_is_find_native": [],
             "C18_reentry_balanced_straightline": [],
@@ -1209,10 +1210,14 @@ PROPS = {
              "conv_spec fails, and the body did not run. Also code 2: rb1 entries (heights after a successful "
              "run_function equal the heights before; call depth also after a failed one), reserved names rejected, no "
              "run ends in a Rust panic. REGISTRATION: one fixed history of register_native_function calls on a new VM "
-             "after the menu (reserved names, repeated names, a menu name, '_' and '__'), then CallNative(name) for a list "
-             "of probe names: which registrations were accepted and which function ran under which name, compared "
-             "with the registry model VmRegistry.v (code 1) and with a by-name specification (code 2: accepted iff the "
-             "name does not start with '__'; the last accepted registration of a name wins). "
+             "after the menu (reserved names, repeated names, a menu name, '_' and '__', and the four ordinary names that "
+             "have the handle of __min / __max / __sort / __to_array), then CallNative(name) for a list of probe names, "
+             "then a program using std.min / max / sorted / to_array: which registrations were accepted, which "
+             "function ran under which name, and whether the library still works as on a VM without the history, "
+             "compared with the registry model VmRegistry.v (code 1) and with a by-name specification (code 2: a "
+             "library native is never replaced and an accepted registration is callable under its name - names "
+             "starting with '__' and the four colliding names are rejected, every other name is accepted; the last "
+             "accepted registration of a name wins). "
              "Non-trivial / distinct as for VM",
         trusted_base=COMMON_TB + [
             "modelled, not verified: traits.rs (VmFunction impls), vm/instr_execution.rs (call_native), vm.rs "
@@ -1233,13 +1238,14 @@ PROPS = {
             "straight-line ScalarNil / CopyLast / Pop code that stays above its frame base "
             "(C18_reentry_balanced_straightline); that ALL compiled callee bodies keep them intact (frame discipline) "
             "is claimed by the rb1 oracle only",
-            "registration: VmRegistry.v models the table of callables as handle -> (name, function) with overwrite on "
-            "an equal handle; HandleTable's own behaviour is C07's; the allocation failure of HandleTable::grow "
-            "during a registration is not modelled. The library's natives are protected by NAME only: a name with the "
-            "same 32-bit FNV-1a handle as a reserved one is accepted and replaces the library's native "
-            "(C18_std_native_shadowed_by_collision, 'tuewgsg' vs '__min', replayed on the crate by "
-            "`cao-verif-harness c18-witness`); C18_std_natives_kept therefore assumes that no accepted name has the "
-            "handle of a library native; the correspondence run uses one fixed registration history",
+            "registration: VmRegistry.v models the table of callables as handle -> (name, function); a registration "
+            "under an occupied handle replaces the entry when the names are equal and is rejected otherwise (vm.rs "
+            "after d80a79a); HandleTable's own behaviour is C07's; the allocation failure of HandleTable::grow during "
+            "a registration is not modelled. Finding N-C18-1 (library natives were protected by NAME only: a name with "
+            "the 32-bit FNV-1a handle of a reserved one, 'tuewgsg' vs '__min', was accepted and replaced the library's "
+            "native) is repaired by d80a79a: C18_std_natives_kept holds for every history without a hash hypothesis, "
+            "C18_colliding_name_rejected; the correspondence run uses one fixed registration history that contains "
+            "the four colliding names",
         ],
     ),
     "VM": dict(
